@@ -34,7 +34,7 @@ func init() {
 		},
 		Run: runC10,
 		Min: func(t core.Tier) map[string]int64 {
-			return map[string]int64{"relations": 5000, "rel:concat": 800, "rel:permute": 800, "rel:fail-replace": 800, "failkind:cast": 100, "failkind:func": 100, "failkind:multimatch": 20}
+			return map[string]int64{"relations": 5000, "rel:concat": 800, "rel:permute": 800, "rel:fail-replace": 400, "failkind:cast": 100, "failkind:func": 100, "failkind:multimatch": 20}
 		},
 	})
 }
